@@ -275,7 +275,13 @@ Inductive op :=
 | Map (s : Z) (f : mapf)
 | Add (s a : Z) | Discard (s a : Z) | Remove (s a : Z)
 | Contains (s a : Z) | Len (s : Z) | Index (s i : Z)
-| Slice (s : Z) (lo hi : option Z) | Iter (s : Z).
+| Slice (s : Z) (lo hi : option Z) | Iter (s : Z)
+(* methods inherited from collections.abc.MutableSet / Sequence, running on the methods above *)
+| Pop (s : Z)                 (* MutableSet.pop: next(iter(self)), then discard; KeyError when empty *)
+| Clear (s : Z)               (* MutableSet.clear: pop until KeyError *)
+| IndexOf (s a : Z)           (* Sequence.index: first i with self[i] is value; ValueError *)
+| Count (s a : Z)             (* Sequence.count *)
+| Reversed (s : Z).           (* Sequence.__reversed__: self[i] for i = len-1 .. 0 *)
 
 Inductive result :=
 | ROk (vals : list Z)
@@ -292,6 +298,22 @@ Definition b2z (b : bool) : Z := if b then 1 else 0.
 Definition zlen {A : Type} (l : list A) : Z := Z.of_nat (length l).
 
 Definition flag_ok (inplace : bool) : result := ROk [b2z inplace].   (* "returned object is self" *)
+
+(* while True: self.pop()  -- each pop discards the first member *)
+Fixpoint pop_all (fuel : nat) (m : list id) : list id :=
+  match fuel with
+  | O => m
+  | S f => match m with [] => [] | x :: _ => pop_all f (remove_key Z.eqb x m) end
+  end.
+
+(* i = 0; while True: v = self[i] (IndexError -> ValueError); if v is value: return i; i += 1 *)
+Fixpoint index_of (a : id) (m : list id) (i : Z) : option Z :=
+  match m with
+  | [] => None
+  | x :: t => if x =? a then Some i else index_of a t (i + 1)
+  end.
+
+Definition count_of (a : id) (m : list id) : Z := zlen (filter (fun x => x =? a) m).
 
 Definition step (st : state) (o : op) : state * result :=
   let t := st_tbl st in
@@ -437,6 +459,36 @@ Definition step (st : state) (o : op) : state * result :=
       match getm s with
       | None => (st, RSkip)
       | Some m => (st, ROk m)
+      end
+  | Pop s =>
+      match getm s with
+      | None => (st, RSkip)
+      | Some [] => (st, RErr E_KEY)
+      | Some (x :: r) => (store st s (remove_key Z.eqb x (x :: r)), ROk [x])
+      end
+  | Clear s =>
+      match getm s with
+      | None => (st, RSkip)
+      | Some m => (store st s (pop_all (length m) m), ROk [])
+      end
+  | IndexOf s a =>
+      match getm s, assoc a t with
+      | Some m, Some _ =>
+          match index_of a m 0 with
+          | Some i => (st, ROk [i])
+          | None => (st, RErr E_VALUE)
+          end
+      | _, _ => (st, RSkip)
+      end
+  | Count s a =>
+      match getm s, assoc a t with
+      | Some m, Some _ => (st, ROk [count_of a m])
+      | _, _ => (st, RSkip)
+      end
+  | Reversed s =>
+      match getm s with
+      | None => (st, RSkip)
+      | Some m => (st, ROk (rev m))
       end
   end.
 
